@@ -114,6 +114,19 @@ func (Engine) Generate(r *simcore.RNG, tier string, idx int) *simcore.Plan {
 		a0, a1 := amountArg(r, regime), amountArg(r, regime)
 		p.Steps = append(p.Steps, simcore.Step{Op: "pos", A: []int64{r.Range(0, 4), int64(i), []int64{0, 1, 5}[r.Intn(3)], r.Range(1, 50), r.Range(1, 50), a0[0], a0[1], a1[0], a1[1], 0}})
 	}
+	// incentive-heavy profile: every pool gets gauges on the long uptimes right away and the first epoch end
+	// follows, so that incentive records emit for most of the run and young positions forfeit
+	incHeavy := r.Chance(0.18)
+	if incHeavy {
+		p.Config["uptimes"] = 3
+		for i := 0; i < npools; i++ {
+			for _, up := range []int64{2, 1} {
+				g := amountArg(r, 1)
+				p.Steps = append(p.Steps, simcore.Step{Op: "gauge", A: []int64{r.Range(0, 4), int64(i), up, g[0], g[1] + 3, 1, 1}})
+			}
+		}
+		p.Steps = append(p.Steps, simcore.Step{Op: "advance", A: []int64{1, r.Range(1, 5000)}}, simcore.Step{Op: "advance", A: []int64{2, r.Range(5, 50)}})
+	}
 	n := int(r.Range(12, 48))
 	for i := 0; i < n; i++ {
 		st := simcore.Step{}
@@ -164,6 +177,14 @@ func (Engine) Generate(r *simcore.RNG, tier string, idx int) *simcore.Plan {
 			p.Steps = append(p.Steps, simcore.Step{Op: "pos", A: []int64{r.Range(0, 4), r.Range(0, 2), 6, r.Range(0, 40), r.Range(1, 40), a0[0], a0[1], a1[0], a1[1], 1}})
 			st.Op = "equalize"
 			st.A = []int64{r.Range(0, 63)}
+		}
+		if incHeavy && r.Chance(0.18) {
+			// more incentive collects, and short time steps so that positions stay young
+			if r.Chance(0.7) {
+				st = simcore.Step{Op: "cinc", A: []int64{r.Range(0, 63)}}
+			} else {
+				st = simcore.Step{Op: "advance", A: []int64{2, r.Range(1, 40)}}
+			}
 		}
 		if faults && r.Chance(0.15) && st.Op != "advance" && st.Op != "restart" {
 			if r.Chance(0.35) {
